@@ -63,6 +63,19 @@ def confs_named(name):
     if name == 'psk-sha512-ecp384':
         o = {'encr': ['aes256'], 'integ': ['sha512'], 'prf': ['sha512'], 'dh': ['20']}
         return base(a_over=o, b_over=o)
+    if name == 'psk-prf512-integ256':      # PRF and integrity digests of different sizes (SK_p is a PRF key, SK_a an integrity key)
+        o = {'encr': ['aes128'], 'integ': ['sha256'], 'prf': ['sha512'], 'dh': ['19']}
+        return base(a_over=o, b_over=o)
+    if name == 'psk-prf1-integ512':
+        o = {'encr': ['aes256'], 'integ': ['sha512'], 'prf': ['sha1'], 'dh': ['19']}
+        return base(a_over=o, b_over=o)
+    if name == 'mm:id-differs-in-case':
+        return base(b_over={'peer_auth': {"id": "Alice@OpenIKEv2", "psk": "testing"}})
+    if name == 'mm:id-differs-by-a-blank':
+        return base(a_over={'peer_auth': {"id": "bob@openikev2 ", "psk": "testing2"}})
+    if name == 'mm:fqdn-differs-in-case':
+        return base(a_over={'my_auth': {"id": "alice.openikev2", "psk": "testing"}},
+                    b_over={'peer_auth': {"id": "Alice.OpenIKEv2", "psk": "testing"}})
     if name == 'psk-multi':      # several transforms per type on both sides: room for downgrade attempts
         o = {'encr': ['aes256', 'aes128'], 'integ': ['sha512', 'sha256', 'sha1'], 'prf': ['sha512', 'sha256', 'sha1'],
              'dh': ['20', '19', '14']}
@@ -139,9 +152,10 @@ def post_load(w, name):
         list(w.endpoints['B'].conf.ike_configurations.values())[0].my_auth.id.id_type = PayloadID.Type(11)
 
 
-GOOD = ['psk', 'two-conns:other-first', 'two-conns:other-last', 'psk-cookie', 'rsa', 'psk-multi', 'psk-sha1-aes128-modp', 'psk-sha512-ecp384', 'fqdn-ids', 'ip-ids']
+GOOD = ['psk', 'psk-prf512-integ256', 'psk-prf1-integ512', 'two-conns:other-first', 'two-conns:other-last', 'psk-cookie', 'rsa', 'psk-multi', 'psk-sha1-aes128-modp', 'psk-sha512-ecp384', 'fqdn-ids', 'ip-ids']
 MISMATCH = ['mm:two-conns:other-first:a-uses-the-other-peers-psk', 'mm:two-conns:other-last:a-uses-the-other-peers-psk',
             'mm:two-conns:other-first:a-expects-the-other-peers-key', 'mm:two-conns:other-last:a-expects-the-other-peers-key',
+            'mm:id-differs-in-case', 'mm:id-differs-by-a-blank', 'mm:fqdn-differs-in-case',
             'mm:b-expects-other-psk', 'mm:a-expects-other-psk', 'mm:b-expects-other-id', 'mm:a-expects-other-id',
             'mm:b-expects-id-as-fqdn', 'mm:b-expects-prefix-id', 'mm:a-sends-rsa-b-expects-psk',
             'mm:a-sends-psk-b-expects-rsa', 'mm:b-has-wrong-pubkey', 'mm:a-signs-with-other-key',
